@@ -8,12 +8,16 @@ import vlib
 def run(ctx):
     quick = ctx.quick
     vlib.tlc_model(ctx, "NegNeeded", "NegNeeded_MC", workers=8)
-    nwalk = 200 if quick else 3000
-    sim = vlib.run_tlc(ctx, "NegNeeded", "NegNeeded_Sim", workers=1, simulate="num=%d" % nwalk, depth=11, timeout=600)
+    nwalk = 300 if quick else 6000
+    sim = vlib.run_tlc(ctx, "NegNeeded", "NegNeeded_Sim", workers=1, simulate="num=%d" % (3 * nwalk), depth=11, timeout=900)
     if sim.rc != 0:
         raise vlib.NoVerdict("simulation failed: %s" % sim.error)
     import sdp_common
     walks = sdp_common.split_walks(sim)
+    nsim = len(walks)
+    # every call is followed by a drain and judged: select the histories for the ordered call triples they contain
+    walks, fcov, fall = sdp_common.select_walks(walks, nwalk, ctx.rng, observe=None)
+    ctx.cov["history_selection"] = {"simulated": nsim, "replayed": len(walks), "call_tuples_covered": fcov, "call_tuples_in_simulated": fall}
     beh = [{"id": i, "steps": w} for i, w in enumerate(walks)]
     ctx.log("%d histories (%d calls)" % (len(beh), sum(len(b["steps"]) for b in beh)))
     binary = vlib.go_build(ctx, "negneeded")
